@@ -29,6 +29,8 @@ type c10Gen struct {
 	// when it is built in the worker and yields nothing for the indices it decides to skip).
 	Split   int
 	SkipEnv func(fs []c10Failure) string
+	// Light: run the inputs without the two non-default option sets (see c10RunOne)
+	Light bool
 }
 
 func (g *c10Gen) label(i, j int) string {
